@@ -10,10 +10,21 @@ EXPLANATION = (
     "exclusive query and not vice versa, symmetric in a,b; (2) do_types_conflict == not "
     "SameResponseShape on wrappers and leaves, for every type nesting; (3) MEMO-M1 of the "
     "per-selection-set cache: its keys are AST nodes with structural equality, so the container "
-    "must be identity keyed (decided on the classes and the constructor of the current source).")
+    "must be identity keyed (decided on the classes and the constructor of the current source); "
+    "(4) the wiring of the decomposition: find_conflicts_within_selection_set, "
+    "collect_conflicts_between_fields_and_fragment, collect_conflicts_between_fragments, "
+    "find_conflicts_between_sub_selection_sets, collect_conflicts_within and collect_conflicts_between "
+    "hand every callee the operands the decomposition needs (which field map meets which spread of "
+    "which side, each pair of fields of one response name once, the exclusivity flag and the shared "
+    "tables passed through, a conflict found is recorded); (5) find_conflict: names and arguments may "
+    "differ only for parents known to be mutually exclusive (the flag, or two different object "
+    "types), differing names / arguments / streams / response shapes each give a conflict and "
+    "nothing else does; sort_field normalises every field value.")
 UNVERIFIED = [
-    "equivalence of the within/between decomposition with FieldsInSetCanMerge on expanded fragments",
-    "find_conflict's exclusivity/name/argument/stream decisions (contract planned), same_arguments",
+    "equivalence of the within/between decomposition with FieldsInSetCanMerge on expanded fragments: the "
+    "wiring of every orchestration function and find_conflict's decisions are decided, the induction over "
+    "the fragment graph is not; a bounded reference comparison (props/C14_ref.py) stands in",
+    "same_arguments / same_streams / subfield_conflicts (assumed pure helpers of find_conflict)",
     "termination on cyclic fragment spreads (follows from the pair tables only together with the traversal, not decided)",
 ]
 TRUSTED = []
@@ -65,6 +76,30 @@ def extra_obligations(world, tier, seed):
                 "detail": f"key class eq structural={structural}; container={detail}",
                 "model": None if ok else {"witness": "props.C14.F8_WITNESS"}})
     return out
+
+
+def bounded_checks(tier, seed):
+    """That the within / between / fragment decomposition covers every pair the specification
+    compares is wired up by contracts but its induction is not mechanised: a reference written from
+    the specification text stands in, bounded (props/C14_ref.py)."""
+    import json
+    code = ("import json\nfrom props.C14_ref import search\n"
+            f"r = search(seed={int(seed)}, thorough={tier == 'thorough'!r})\n"
+            "print('BOUNDED ' + json.dumps(r, default=str))")
+    rc, outp = run_native(code, timeout=1500)
+    res, ok = None, False
+    for line in outp.splitlines():
+        if line.startswith("BOUNDED "):
+            res, ok = json.loads(line[8:]), True
+    if not ok:
+        raise RuntimeError(outp[-600:])
+    return [{"id": "C14/bounded/fields-in-set-can-merge-reference",
+             "function": "OverlappingFieldsCanBeMergedRule (validate)",
+             "tool": "reference FieldsInSetCanMerge / SameResponseShape (fragments expanded) vs the rule, native",
+             "bound": "one schema; documents { pet { A B [C] } } over 18 field atoms x up to 7 wrappers "
+                      "(plain, inline fragments, spreads, nested, cyclic fragments): all pairs + "
+                      + ("20000" if tier == "thorough" else "1500") + " seeded triples; no @stream, no fragment arguments",
+             "failed": res is not None, "input": res, "output": outp[-1500:]}]
 
 
 def native_checks(tier, seed):
